@@ -40,6 +40,29 @@ func globalFunc(p *an.Prog, name string) *ssa.Function {
 
 func retryRules(c *Ctx) {
 	P := c.P
+	// FatalError wraps exactly its argument in the type that isFatalError / unpackFatalError recognise
+	if q := c.F("FatalError"); q.ok() {
+		ok := false
+		for _, r := range returnsOf(q.fn) {
+			for _, v := range c.retVals(r, 0) {
+				// MakeInterface was unwrapped by Sources: the value is a load of a fatalError struct whose err field holds the parameter
+				if ld, isL := isLoad(v); isL {
+					if al, isA := ld.X.(*ssa.Alloc); isA {
+						for _, ref := range *al.Referrers() {
+							if fa, isFA := ref.(*ssa.FieldAddr); isFA && an.FieldOfAddr(fa) == "fatalError.err" {
+								for _, rr := range *fa.Referrers() {
+									if st, isSt := rr.(*ssa.Store); isSt && st.Val == ssa.Value(q.fn.Params[0]) {
+										ok = true
+									}
+								}
+							}
+						}
+					}
+				}
+			}
+		}
+		q.add("PROV", "FatalError wraps its argument in fatalError", ok, pickS(ok, "returns fatalError{err: err}", "FatalError does not return a fatalError holding its argument: the retry loop would not stop on it, or would return another error"))
+	}
 	q := c.F("ExponentialRetry")
 	if !q.ok() {
 		return
